@@ -70,7 +70,7 @@ struct Fault14 : public UserFault {
 
 // ---- one log for ALL operator applications (A- and B-operator) of a solver, in call order ----
 struct Log14 {
-    long count = 0, countA = 0; uint64_t hash = 1469598103934665603ull; long throw_at = -1; std::vector<uint64_t>* record = nullptr;
+    long count = 0, countA = 0; uint64_t hash = 1469598103934665603ull; long throw_at = -1, poison_at = -1; std::vector<uint64_t>* record = nullptr;
     void clear() { count = 0; countA = 0; hash = 1469598103934665603ull; }
     void enter(int channel, const double* x, long n) {
         count++; if (channel == 0) countA++;
@@ -122,6 +122,12 @@ struct FRegInv : public Spectra::SparseRegularInverse<double> { Log14* log;
 struct FSymProd : public Spectra::DenseSymMatProd<double> { Log14* log; int channel;
     FSymProd(const Mat& A, Log14& l, int ch) : Spectra::DenseSymMatProd<double>(A), log(&l), channel(ch) {}
     void perform_op(const double* x, double* y) const { log->enter(channel, x, rows()); Spectra::DenseSymMatProd<double>::perform_op(x, y); } };
+// fault kind "poison": the user's A-operator does not throw; at its poison_at-th application it RETURNS a vector containing NaN.
+// The library's own thrower then fires further down the operator stack (SparseRegularInverse::solve: CG fails -> std::runtime_error).
+struct PSymProd : public Spectra::DenseSymMatProd<double> { Log14* log;
+    PSymProd(const Mat& A, Log14& l) : Spectra::DenseSymMatProd<double>(A), log(&l) {}
+    void perform_op(const double* x, double* y) const { log->enter(0, x, rows()); Spectra::DenseSymMatProd<double>::perform_op(x, y);
+        if (log->poison_at >= 0 && log->countA == log->poison_at) y[0] = std::numeric_limits<double>::quiet_NaN(); } };
 typedef Spectra::SymShiftInvert<double, Eigen::Dense, Eigen::Dense> SIBase;
 struct FShiftInvert : public SIBase { Log14* log;
     FShiftInvert(const Mat& A, const Mat& B, Log14& l) : SIBase(A, B), log(&l) {}
@@ -148,11 +154,13 @@ static std::string diff(const Res& a, const Res& b) {
 // ---- a solver together with everything it refers to; H must provide init(), compute(), S& solver() ----
 struct Params { int n, nev, ncv, sel, sort; long maxit; double tol; Vec v0; };
 template <class H> static void run_clean(H& h, Log14& log, Res& r) {
-    r = Res(); log.clear(); log.throw_at = -1;
+    r = Res(); log.clear(); log.throw_at = -1; log.poison_at = -1;
+    const char* tn = nullptr;
     {   Track t;
         try { h.init(); r.ret = h.compute(); r.napps = log.count; }
-        catch (const std::exception& e) { r.threw = true; }
+        catch (const std::exception& e) { r.threw = true; tn = typeid(e).name(); }
     }
+    if (tn) r.exn = std::string("threw ") + tn;      // (string built outside the tracked region)
     auto& s = h.solver();
     r.info = (int) s.info(); r.niter = (long) s.num_iterations(); r.nmatop = (long) s.num_operations();
     if (!r.threw) { auto ev = s.eigenvalues(); for (long i = 0; i < ev.size(); i++) push(r.ev, ev[i]);
@@ -251,6 +259,59 @@ template <class Make, class Resp> static void sweep(Ctx& c, Log14& log, Make mak
     { Track t; W.reset(); }
 }
 
+// ---- poison sweep: the LIBRARY's thrower (real SparseRegularInverse as B operator) fires at the k-th A-application, k = 1..K ----
+template <class Make> static void poison_sweep(Ctx& c, Log14& log, Make make) {
+    Out& out = *c.out; const Params& P = *c.P;
+    const long kmax = c.thorough ? 400 : 90;
+    typedef decltype(make()) HP; HP W; { Track t; W = make(); }
+    Res R0, Rk; run_clean(*W, log, R0); const long K = log.countA;
+    if (R0.threw || K > kmax) { out.count(R0.threw ? "poison_baseline_throws" : "poison_baseline_too_long"); Track t; W.reset(); return; }
+    out.count("oracle_poison_baseline");
+    auto rjp = [&](long k, const char* obj) { std::string s = rj(c, k, 0, obj); s.insert(s.size() - 1, ",\"fault_kind\":\"poison\""); return s; };
+    // one poisoned init(); compute(): kind 1 = std::runtime_error left the call, 0 = returned normally, 2 = other std exception, 3 = other
+    auto poisoned = [&](decltype(*W)& h, long k, long& dblocks, char& stage, int& info0, int& info1, long& niter, long& nmatop, long& enteredA, const char*& tn) {
+        auto& s = h.solver(); info0 = (int) s.info(); int kind = 0; tn = "";
+        log.clear(); log.throw_at = -1; log.poison_at = k; const long b0 = g_live;
+        {   Track t;
+            try { stage = 'I'; h.init(); stage = 'C'; h.compute(); stage = 'N'; }
+            catch (const std::runtime_error&) { kind = 1; }
+            catch (const std::exception& e) { kind = 2; tn = typeid(e).name(); }
+            catch (...) { kind = 3; }
+        }
+        dblocks = g_live - b0; log.poison_at = -1; enteredA = log.countA;
+        info1 = (int) s.info(); niter = (long) s.num_iterations(); nmatop = (long) s.num_operations();
+        return kind;
+    };
+    for (long k = 1; k <= K; k++) {
+        { std::ofstream lc(out.dir + "/lastcase.txt"); lc << "c14 case " << c.caseno << " seed " << c.seed << " class " << c.cls << " poison_at " << k << "\n"; }
+        for (int fresh = 0; fresh < 2; fresh++) {
+            const char* obj = fresh ? "fresh" : "warm"; const long L0 = g_live;
+            {   HP F; if (fresh) { Track t; F = make(); }
+                auto& h = fresh ? *F : *W;
+                long db = 0, niter = 0, nmatop = 0, entA = 0; char stage = '-'; int i0 = 0, i1 = 0; const char* tn = "";
+                const int kind = poisoned(h, k, db, stage, i0, i1, niter, nmatop, entA, tn);
+                out.count("oracle_poison"); out.count(std::string("poison_stage_") + stage);
+                const std::string where = c.cls + " with SparseRegularInverse as B operator: A-operator returns NaN at its application " + str(k) + (stage == 'I' ? " (inside init())" : " (inside compute())");
+                if (kind == 0) out.fail("lib-thrower-silent", where + ": init(); compute() returned normally although the B solve cannot have converged (no std::runtime_error from SparseRegularInverse::solve)", rjp(k, obj));
+                else if (kind != 1) out.fail("lib-exception-replaced", where + ": an exception other than std::runtime_error left the call (" + std::string(kind == 2 ? tn : "non-std") + ")", rjp(k, obj));
+                else {
+                    if (entA != k) out.fail("application-after-fault", where + ": the A-operator was applied " + str(entA - k) + " more time(s) after the application whose B solve failed", rjp(k, obj));
+                    if (i1 != i0) out.fail("fault-changes-info", where + ": info() changed from " + str(i0) + " to " + str(i1), rjp(k, obj));
+                    if (niter != 0) out.fail("fault-niter", where + ": num_iterations() = " + str(niter) + " after the interrupted call", rjp(k, obj));
+                    if (nmatop < 0 || nmatop > entA) out.fail("fault-opcount", where + ": num_operations() = " + str(nmatop) + " but only " + str(entA) + " applications were started", rjp(k, obj));
+                }
+                if (!fresh && db != 0) out.fail("leak-after-unwind", where + ": " + str(db) + " heap block(s) more are live after the exception left the call than before the call (already used solver object)", rjp(k, obj));
+                run_clean(h, log, Rk);     // the fault is gone: SAME solver object, SAME B-operator object
+                if (!(Rk == R0)) out.fail("recovery-differs", where + ": afterwards, with a healthy operator, init(); compute() on the same (" + std::string(fresh ? "fresh" : "already used") + ") solver and B-operator objects differs from the fault-free baseline in " + diff(Rk, R0), rjp(k, obj));
+                out.count("oracle_poison_recovery");
+                if (fresh) { Track t; F.reset(); }
+            }
+            if (fresh && g_live != L0) out.fail("leak-after-destroy", c.cls + " (poison): " + str(g_live - L0) + " heap block(s) still live after the library's exception at application " + str(k) + ", recovery and destruction of the solver", rjp(k, obj));
+        }
+    }
+    { Track t; W.reset(); }
+}
+
 static std::string herm_header(int variant, const Params& P, double sigma, const Mat& M) {
     const double eps = Spectra::TypeTraits<double>::epsilon(); const double eps23 = std::pow(eps, double(2) / 3); const double near0 = Spectra::TypeTraits<double>::min() * double(10);
     return "hermf " + str(variant) + " " + str(P.n) + " " + str(P.nev) + " " + str(P.ncv) + " " + str(dbits(eps23)) + " " + str(dbits(near0)) + " " + str(dbits(eps)) + " " + str(dbits(sigma)) + mat_bits(M) +
@@ -298,6 +359,8 @@ typedef Spectra::SymGEigsSolver<FSymProd, FCholesky, Spectra::GEigsMode::Cholesk
 struct HGChol { FSymProd op; FCholesky Bop; HOLDER_COMMON(GChol) HGChol(const Mat& A, const Mat& B, Log14& l, const Params& p) : op(A, l, 0), Bop(B, l), S(op, Bop, p.nev, p.ncv), P(&p) {} };
 typedef Spectra::SymGEigsSolver<FSymProd, FRegInv, Spectra::GEigsMode::RegularInverse> GReg;
 struct HGReg { FSymProd op; SpMat Bs; FRegInv Bop; HOLDER_COMMON(GReg) HGReg(const Mat& A, const Mat& B, Log14& l, const Params& p) : op(A, l, 0), Bs(B.sparseView()), Bop(Bs, l), S(op, Bop, p.nev, p.ncv), P(&p) {} };
+typedef Spectra::SymGEigsSolver<PSymProd, Spectra::SparseRegularInverse<double>, Spectra::GEigsMode::RegularInverse> GRegP;
+struct HGRegP { PSymProd op; SpMat Bs; Spectra::SparseRegularInverse<double> Bop; HOLDER_COMMON(GRegP) HGRegP(const Mat& A, const Mat& B, Log14& l, const Params& p) : op(A, l), Bs(B.sparseView()), Bop(Bs), S(op, Bop, p.nev, p.ncv), P(&p) {} };
 template <Spectra::GEigsMode Mode> struct HGShift { FShiftInvert op; FSymProd Bop; typedef Spectra::SymGEigsShiftSolver<FShiftInvert, FSymProd, Mode> ST; HOLDER_COMMON(ST)
     HGShift(const Mat& A, const Mat& B, const Mat& Bprod, Log14& l, const Params& p, double sigma) : op(A, B, l), Bop(Bprod, l, 1), S(op, Bop, p.nev, p.ncv, sigma), P(&p) {} };
 
@@ -339,7 +402,8 @@ int main(int argc, char** argv) {
             Mat A = gen_sym(r, n, kind, scale); Mat M = gen_general(r, n, 0, 1.0); Mat B = M * M.transpose() + Mat::Identity(n, n) * (0.5 + r.unit());
             double sigma = (0.3 + r.unit()) * scale * (r.coin() ? 1 : -1);
             if (cls == 6 || cls == 11) { c.cls = "SymGEigsSolver<Cholesky>"; sweep(c, log, [&]() { return std::unique_ptr<HGChol>(new HGChol(A, B, log, P)); }, nullptr, NoResp()); }
-            else if (cls == 7) { c.cls = "SymGEigsSolver<RegularInverse>"; sweep(c, log, [&]() { return std::unique_ptr<HGReg>(new HGReg(A, B, log, P)); }, nullptr, NoResp()); }
+            else if (cls == 7) { c.cls = "SymGEigsSolver<RegularInverse>"; sweep(c, log, [&]() { return std::unique_ptr<HGReg>(new HGReg(A, B, log, P)); }, nullptr, NoResp());
+                poison_sweep(c, log, [&]() { return std::unique_ptr<HGRegP>(new HGRegP(A, B, log, P)); }); }
             else if (cls == 8) { c.cls = "SymGEigsShiftSolver<ShiftInvert>"; sweep(c, log, [&]() { return std::unique_ptr<HGShift<Spectra::GEigsMode::ShiftInvert>>(new HGShift<Spectra::GEigsMode::ShiftInvert>(A, B, B, log, P, sigma)); }, nullptr, NoResp()); }
             else if (cls == 9) { c.cls = "SymGEigsShiftSolver<Buckling>"; sweep(c, log, [&]() { return std::unique_ptr<HGShift<Spectra::GEigsMode::Buckling>>(new HGShift<Spectra::GEigsMode::Buckling>(B, A, B, log, P, sigma)); }, nullptr, NoResp()); }
             else { c.cls = "SymGEigsShiftSolver<Cayley>"; sweep(c, log, [&]() { return std::unique_ptr<HGShift<Spectra::GEigsMode::Cayley>>(new HGShift<Spectra::GEigsMode::Cayley>(A, B, B, log, P, sigma)); }, nullptr, NoResp()); }
